@@ -74,7 +74,7 @@ class C12(Prop):
                     for sub in itertools.permutations(range(n), L):
                         lists.append([rows[j][:-1] + [(rows[j][-1] + 2 * rng.randrange(2)) % 4] for j in sub])
                 for li, lst in enumerate(lists):
-                    fmt = ("plist", "strings", "strlist", "codes")[(i + li) % 4]
+                    fmt = ("plist", "strings", "strlist", "codes", "gen", "genp")[(i + li) % 6]
                     s = {"k": "fromstab", "n": n, "stabs": lst, "fmt": fmt}
                     if n == 2 and i % 12:
                         s["pkg"] = "py"
@@ -214,6 +214,15 @@ class C12(Prop):
                         S = St.stabilizer_state(*[wire_str(w) for w in lst])
                     elif scn["fmt"] == "strlist":
                         S = St.stabilizer_state([wire_str(w) for w in lst])
+                    elif scn["fmt"] in ("gen", "genp"):
+                        # one generator expression (a format paulis() supports); a TypeError would be a refusal
+                        try:
+                            if scn["fmt"] == "gen":
+                                S = St.stabilizer_state(wire_str(w) for w in lst)
+                            else:
+                                S = St.stabilizer_state(be.pauli(w) for w in lst)
+                        except TypeError:
+                            return []
                     else:
                         # arrays of codes: 0-3 letters, 5 = '-' sign token in front
                         import numpy
